@@ -25,11 +25,20 @@ func c10World(tp *Tape, env *Env) (*Plan, *Violation) {
 	if len(cfg.Handlers) == 0 {
 		cfg.Handlers = []HandlerSpec{{Name: "c0", Shape: handlerShapes[tp.Int(0, len(handlerShapes)-1, "shape")], Params: []string{"int", "string"}}}
 	}
+	if tp.Chance(15, "withstops") {
+		cfg.WStop = 2
+	}
 	g := &gen{tp: tp, cfg: cfg}
 	prog := g.program()
 	layout := genLayout(tp)
 	w := World{Readers: distribute(tp, prog, layout, 1)}
-	w.Host = HostSpec{Storer: []string{"rec", "mem"}[tp.Int(0, 1, "storer")], Probes: true, Seed: "s1", Handlers: cfg.Handlers, Scheds: drawScheds(tp, true)}
+	hostHandlers := cfg.Handlers
+	if cfg.WStop > 0 {
+		// a host-registered "stop" must never be reached by <<stop>> (the model does not know this handler: an
+		// invocation of it shows up as one invocation too many)
+		hostHandlers = append(append([]HandlerSpec{}, hostHandlers...), HandlerSpec{Name: "stop", Shape: handlerShapes[tp.Int(0, len(handlerShapes)-1, "stopshape")]})
+	}
+	w.Host = HostSpec{Storer: []string{"rec", "mem"}[tp.Int(0, 1, "storer")], Probes: true, Seed: "s1", Handlers: hostHandlers, Scheds: drawScheds(tp, true)}
 	m := newModel(prog, cfg.Handlers, w.Host.Scheds)
 	dc := &DriveCfg{MaxOps: 40, Vars: g.vars, WritePct: tp.Int(0, 15, "writepct")}
 	ops, choices := driveTape(tp, m, dc, env.St)
